@@ -141,3 +141,32 @@ Print Assumptions C13_split_off.
 Print Assumptions C13_drain.
 Print Assumptions C13_resize_grow.
 Print Assumptions C13_resize_shrink.
+
+(* ---- splice (VecSplice.v): Drain over the range, then Splice::drop's fill / move_tail / collect ---- *)
+From BV Require Import VecSplice.
+
+(* whatever the replacement iterator's size hints claim, v.splice(range, xs) leaves
+   c[..a] ++ xs ++ c[b..] and removes exactly c[a..b] *)
+Theorem C13_splice : forall e v c s e0 xs h0 h1 r,
+  repr e v c -> splice e v s e0 xs h0 h1 = Ret r ->
+  exists a b, drain_range v s e0 = Ret (a, b) /\
+    repr e (s_vec r) (firstn (nn a) c ++ xs ++ skipn (nn b) c) /\
+    s_removed r = firstn (nn b - nn a) (skipn (nn a) c).
+Proof. exact splice_spec. Qed.
+
+Theorem C13_splice_hints_irrelevant : forall e v c s e0 xs h0 h1 h0' h1' r r',
+  repr e v c -> splice e v s e0 xs h0 h1 = Ret r -> splice e v s e0 xs h0' h1' = Ret r' ->
+  contents (s_vec r) = contents (s_vec r') /\ s_removed r = s_removed r'.
+Proof. exact splice_hints_irrelevant. Qed.
+
+Example C13_splice_example :
+  let e := mkEcfg 8 8 in
+  let v := mkVec [Some 1; Some 2; Some 3; Some 4; Some 5; None] 5 in
+  match splice e v (Incl 1) (Excl 3) [10; 11; 12; 13] 1 7 with
+  | Ret r => contents (s_vec r) = [1; 10; 11; 12; 13; 4; 5] /\ s_removed r = [2; 3]
+  | Panic _ => False
+  end.
+Proof. vm_compute. split; reflexivity. Qed.
+
+Print Assumptions C13_splice.
+Print Assumptions C13_splice_hints_irrelevant.
